@@ -492,8 +492,18 @@ Section CLONE_THM.
         { destruct Hf as [H1 _]. unfold src. rewrite (H1 _ (src_not_under_dst ws dws i Hlen Hdiff [SPF])). exact G. }
         unfold exec_res. cbn [exec]. rewrite Gf. cbn [snd]. rewrite J, Hnn, E, str_eqb_refl.
         fold src dst. apply safe_pure_all; [reflexivity|]. intro rs. cbv zeta.
-        rewrite <- (app_nil_r src), <- (app_nil_r dst) at 1.
-        apply (safe_copytree f0 ws dws i c0 Hlen Hdiff Hdws G Hcl); [exact I|]. apply (HK rs).
+        (* the lstat of the destination: an error other than ENOENT propagates, nothing done *)
+        assert (Hcopy : safeK (CI f0 dws i c0) (copytree_p 6 true (src ++ []) (dst ++ []) (fun r =>
+                 match r with
+                 | FOk false => ret_res (inl tt)
+                 | FOk true => if exists_r rs then ret_res (inr (POs EIO)) else rmtree_ign 6 dst (ret_res (inr (POs EIO)))
+                 | FErr EEXIST => ret_res (inr (PExn EDestinationExists))
+                 | FErr ENOENT => ret_res (inr (PExn EValueError))
+                 | FErr e => if exists_r rs then ret_res (inr (POs e)) else rmtree_ign 6 dst (ret_res (inr (POs e)))
+                 end))).
+        { apply (safe_copytree f0 ws dws i c0 Hlen Hdiff Hdws G Hcl); [exact I|]. apply (HK rs). }
+        rewrite !app_nil_r in Hcopy.
+        destruct rs as [v|e]; [exact Hcopy|]. destruct e; try apply safe_raise; exact Hcopy.
       - intro e. destruct e; apply safe_raise.
     Qed.
 
@@ -650,28 +660,41 @@ Proof.
     apply crashed_gcrashed. exact H.
 Qed.
 
-(* every fault plan: with a fresh destination CInv holds whatever fails (copy steps, clean-up steps, stats);
-   with an existing destination nothing is touched, provided the lexists() of the destination itself is not
-   among the failing calls (position 1; os.path.lexists reads any error as "not there") *)
+(* an EXISTING destination (other or same project) is never touched, whatever fails — copy steps, stats,
+   the lstat of the destination itself (ed42bbc: its error propagates before anything is copied).  Only an
+   injected ENOENT at that lstat is excluded: signac reads ENOENT as "not there", by design. *)
+Theorem clone_existing_untouched_thm : forall frepr wss f0 ws dws i atomic plan,
+  WInv frepr wss f0 -> In ws wss -> In dws wss -> In i (job_dirs f0 ws) ->
+  get f0 (dws ++ [i]) <> None -> plan 1%nat <> Some ENOENT ->
+  fst (run_fault plan 0 (op_prog frepr atomic (KClone ws i dws)) f0) = f0.
+Proof.
+  intros frepr wss f0 ws dws i atomic plan HW Hws Hdwsin Hi Hex Hp1.
+  destruct (cl_facts frepr wss f0 ws dws i HW Hws Hdwsin Hi) as [Hdws [Hlen [Hcl [c0 [v0 [G [J [E [Hnn Hs]]]]]]]]].
+  destruct (get f0 (dws ++ [i])) as [nd|] eqn:Gd; [|congruence].
+  unfold op_prog, job_clone, with_sp, sp_load.
+  replace (ws ++ [i; SPF]) with ((ws ++ [i]) ++ [SPF]) by (rewrite <- app_assoc; reflexivity).
+  rewrite run_fault_do. destruct (plan 0%nat) as [e0|].
+  - destruct e0; reflexivity.
+  - assert (E0 : exec_res f0 (CRead ((ws ++ [i]) ++ [SPF])) = (f0, FOk (RData c0))) by (unfold exec_res; cbn [exec]; rewrite G; reflexivity).
+    rewrite E0, J, Hnn, E, str_eqb_refl. rewrite run_fault_do.
+    destruct (plan 1%nat) as [e1|] eqn:P1.
+    + destruct e1; try reflexivity. congruence.
+    + rewrite exec_res_stat, Gd. cbv zeta.
+      refine (clone_exists_tail frepr f0 ws dws i _ Hcl _ _ f0 _ eq_refl (run_fault_gcrashed _ plan _ 2 f0));
+        [congruence|destruct nd; reflexivity].
+Qed.
+
+(* every fault plan: CInv holds whatever fails (copy steps, clean-up steps, stats) *)
 Theorem fault_safe_clone_thm : forall frepr wss f0 ws dws i atomic plan,
   WInv frepr wss f0 -> In ws wss -> In dws wss -> In i (job_dirs f0 ws) ->
-  get f0 (dws ++ [i]) = None \/ plan 1%nat = None ->
+  get f0 (dws ++ [i]) = None \/ plan 1%nat <> Some ENOENT ->
   CInv frepr (KClone ws i dws) wss f0 (fst (run_fault plan 0 (op_prog frepr atomic (KClone ws i dws)) f0)).
 Proof.
   intros frepr wss f0 ws dws i atomic plan HW Hws Hdwsin Hi Hcase.
-  destruct (cl_facts frepr wss f0 ws dws i HW Hws Hdwsin Hi) as [Hdws [Hlen [Hcl [c0 [v0 [G [J [E [Hnn Hs]]]]]]]]].
   destruct (get f0 (dws ++ [i])) as [nd|] eqn:Gd.
   - destruct Hcase as [Hc|Hp1]; [discriminate|].
-    assert (Hg : fst (run_fault plan 0 (op_prog frepr atomic (KClone ws i dws)) f0) = f0).
-    { unfold op_prog, job_clone, with_sp, sp_load.
-      replace (ws ++ [i; SPF]) with ((ws ++ [i]) ++ [SPF]) by (rewrite <- app_assoc; reflexivity).
-      rewrite run_fault_do. destruct (plan 0%nat) as [e0|].
-      - destruct e0; reflexivity.
-      - assert (E0 : exec_res f0 (CRead ((ws ++ [i]) ++ [SPF])) = (f0, FOk (RData c0))) by (unfold exec_res; cbn [exec]; rewrite G; reflexivity).
-        rewrite E0, J, Hnn, E, str_eqb_refl. rewrite run_fault_do, Hp1, exec_res_stat, Gd. cbv zeta.
-        refine (clone_exists_tail frepr f0 ws dws i _ Hcl _ _ f0 _ eq_refl (run_fault_gcrashed _ plan _ 2 f0));
-          [congruence|destruct nd; reflexivity]. }
-    rewrite Hg. apply (cinv_clone_pre frepr wss f0 ws dws i HW Hws Hdwsin Hi).
+    rewrite (clone_existing_untouched_thm frepr wss f0 ws dws i atomic plan HW Hws Hdwsin Hi); auto; [|congruence].
+    apply (cinv_clone_pre frepr wss f0 ws dws i HW Hws Hdwsin Hi).
   - assert (Hdiff : ws <> dws).
     { intro Eq. subst dws. destruct (winv_job frepr wss f0 ws i HW Hws Hi) as [Hsd _]. congruence. }
     apply (clone_fresh_all frepr wss f0 ws dws i HW Hws Hdwsin Hi atomic _ Hdiff Gd).
